@@ -615,6 +615,32 @@ def _race_c12(rng, tier):
     return out
 
 
+def _watch_c12(rng, tier):
+    """The specfile watcher as a further source of concurrent changes: the logger is started with a specification
+    file; one thread rewrites the file (1-2 edits) while 1-2 others call set_new_spec on handle clones - at once and
+    around the instant at which the watcher thread applies the edit through WritersHandle::set_new_spec (its debounce
+    time, about 1 s, after the edit). Judged after that. Specifications without regex (the TOML form does not carry it)."""
+    pool = [x for x in CS if not x["hasre"]] + [
+        {"f": [{"n": ["a"], "l": 5}], "d": -1, "hasre": False, "re": []},
+        {"f": [{"n": ["b"], "l": 5}], "d": 2, "hasre": False, "re": []},
+        {"f": [], "d": 5, "hasre": False, "re": []}, {"f": [], "d": 1, "hasre": False, "re": []},
+        {"f": [{"n": ["a"], "l": 1}], "d": 0, "hasre": False, "re": []}]
+    out = []
+    for i in range(16 if tier == "quick" else 320):
+        init = rng.choice(pool)
+        progs = [[{"op": "File", "spec": rng.choice([x for x in pool if x != init])} for _ in range(rng.choice([1, 2]))]]
+        for _ in range(rng.choice([1, 1, 2])):
+            prog = [{"op": "Set", "spec": rng.choice(pool)}, {"op": "Sleep", "ms": rng.randint(850, 1000)}]
+            for _ in range(rng.choice([4, 8, 12])):
+                prog += [{"op": "Set", "spec": rng.choice(pool)}, {"op": "Sleep", "ms": rng.choice([1, 5, 20, 40])}]
+            progs.append(prog)
+        rng.shuffle(progs)
+        s_ = _conc(progs, [], "watch", init=init, writer=({"on": True, "c": rng.choice([1, 3])} if i % 3 == 0 else None))
+        s_["specfile"] = True
+        out.append(s_)
+    return out
+
+
 def _rand_c12(rng, tier):
     """random interleavings of longer programs (valid for the as-coded atomicity: no lock across the gate write)"""
     out = []
@@ -716,6 +742,8 @@ def C12(tier, seed):
             scens.append(_conc(r["cfg"]["progs"], [s_ for s_ in r["steps"] if "t" in s_], "tlc:gen2+writer",
                                init=r["steps"][0]["spec"], writer=wr))
         scens += _race_c12(rng, tier)
+        # (slow: each waits for the watcher's debounce time; first in the list = spread evenly over the shards)
+        scens = _watch_c12(rng, tier) + scens
         scens = _number(scens)
         res = _run(pid, mon, scens, wd)
         C.log(f"[{pid}] executed {res['scenarios']} schedules / {res['events']} events on the real code ({n_model} from "
@@ -733,8 +761,9 @@ def C12(tier, seed):
                             "(programs, schedule) pairs; every schedule has at least two racing calls",
                        assumptions=A_SPEC + ["the three hook points sc:sns_enter / sc:sns_updated / sc:sns_exit delimit all "
                                              "accesses of set_new_spec to shared state; races at other points are not "
-                                             "explored", "the specfile watcher calls the same WritersHandle::set_new_spec; "
-                                             "the inotify path itself is not driven"],
+                                             "explored", "specfile watcher: edits of the file race with set_new_spec calls "
+                                             "on handle clones (16 quick / 320 thorough free-running scenarios, judged once "
+                                             "the watcher has applied the last edit); its steps are not scheduled"],
                        distinct=distinct, extra_facts=_facts_c12,
                        extra_cov={"gate_written_under_lock": locked})
     finally:
